@@ -1,4 +1,4 @@
-import NitroVerif.Lemmas.CheckOpArgs
+import NitroVerif.Lemmas.CheckOpSubscription
 /-!
 # C03 — `check` accepts no operation that violates an implemented validation rule
 
@@ -343,6 +343,85 @@ theorem C03_rule_5_4_2 (S : Schema) (D : Doc) (hS : SchemaValid S) (h : checkOp 
     obtain ⟨dd, _, _, hq⟩ := hfacts d hd
     exact (checkArguments_names hA hq).1
 
+/-! ### values and variable usages (`Lemmas/CheckOpValues*.lean`: `check_value` against the specification input coercion and `IsVariableUsageAllowed`) -/
+
+/-- 5.6.1 Values of Correct Type: if the checker reports nothing, every argument value (of fields and of
+    directives, at any nesting depth inside lists and input objects) and every variable default value is
+    coercible to the type expected at its position. -/
+theorem C03_rule_5_6_1 (S : Schema) (D : Doc) (hS : SchemaValid S) (h : checkOp S D = []) : rule_5_6_1 S D = true :=
+  valueRule_of_ok "5.6.1" (typedValues_ok hS h)
+
+/-- 5.6.2 Input Object Field Names: if the checker reports nothing, every field of every input-object literal
+    is defined by the input-object type expected at its position. -/
+theorem C03_rule_5_6_2 (S : Schema) (D : Doc) (hS : SchemaValid S) (h : checkOp S D = []) : rule_5_6_2 S D = true :=
+  valueRule_of_ok "5.6.2" (typedValues_ok hS h)
+
+/-- 5.6.3 Input Object Field Uniqueness: if the checker reports nothing, no input-object literal names a field
+    twice. -/
+theorem C03_rule_5_6_3 (S : Schema) (D : Doc) (hS : SchemaValid S) (h : checkOp S D = []) : rule_5_6_3 S D = true :=
+  valueRule_of_ok "5.6.3" (typedValues_ok hS h)
+
+/-- 5.6.4 Input Object Required Fields: if the checker reports nothing, every input-object literal provides
+    all required fields (non-null type, no default value) of its type. -/
+theorem C03_rule_5_6_4 (S : Schema) (D : Doc) (hS : SchemaValid S) (h : checkOp S D = []) : rule_5_6_4 S D = true :=
+  valueRule_of_ok "5.6.4" (typedValues_ok hS h)
+
+/-- 5.8.3 All Variable Uses Defined: if the checker reports nothing, every variable used in the scope of an
+    operation (its selection sets and directives, and those of every fragment it reaches) is defined by that
+    operation. -/
+theorem C03_rule_5_8_3 (S : Schema) (D : Doc) (hS : SchemaValid S) (h : checkOp S D = []) : rule_5_8_3 S D = true := by
+  unfold rule_5_8_3
+  rw [List.all_eq_true]
+  intro o ho
+  rw [List.all_eq_true]
+  intro u hu
+  obtain ⟨vd, hvd, _⟩ := opVarUses_ok hS h (by rw [← ops_eq]; exact ho) u hu
+  have hp : (vd.name == u.name) = true := by
+    have := List.find?_some hvd
+    simpa using this
+  exact List.any_eq_true.mpr ⟨vd, List.mem_of_find?_eq_some hvd, by simpa using hp⟩
+
+/-- 5.8.5 All Variable Usages Are Allowed: if the checker reports nothing, every variable usage in the scope of
+    an operation satisfies the specification's `IsVariableUsageAllowed` (type compatibility, with the
+    non-null-default exceptions). -/
+theorem C03_rule_5_8_5 (S : Schema) (D : Doc) (hS : SchemaValid S) (h : checkOp S D = []) : rule_5_8_5 S D = true := by
+  unfold rule_5_8_5
+  rw [List.all_eq_true]
+  intro o ho
+  rw [List.all_eq_true]
+  intro u hu
+  obtain ⟨vd, hvd, hal⟩ := opVarUses_ok hS h (by rw [← ops_eq]; exact ho) u hu
+  simp only [hvd]; exact hal
+
+/-! ### subscriptions (`Lemmas/CheckOpSubscription.lean`) -/
+
+/-- 5.2.3.1 Single Root Field, the part a checker has to test: if the checker reports nothing, the root selection
+    set of every subscription collects AT MOST ONE response key (spec `CollectFields`, through inline fragments
+    and fragment spreads). That it collects at least one follows from the grammar (selection sets are non-empty)
+    together with 5.5.2.1 / 5.5.2.2 and is not proved here — see the OPEN block. -/
+theorem C03_rule_5_2_3_1_at_most_one (S : Schema) (D : Doc) (h : checkOp S D = []) :
+    ∀ o ∈ Valid.ops D, o.kind = .subscription → (Valid.rootKeys D o.sel).length ≤ 1 := by
+  intro o ho hkind
+  rw [ops_eq] at ho
+  obtain ⟨_, hb⟩ := checkDefs_mem D [] h _ (op_mem_doc ho)
+  obtain ⟨root, hroot, _, _, hsub, hwalk⟩ := checkOperation_nil (by simpa [defBody] using hb)
+  have hM : (dedupNames (rootKeys (keysHandler D (fuelFor D)) [] o.sel)).length ≤ 1 := by
+    have hk : (o.kind == OpKind.subscription) = true := by rw [hkind]; rfl
+    simp only [hk, Bool.true_and, hasMoreThanOneField, decide_eq_false_iff_not] at hsub
+    omega
+  unfold Valid.rootKeys
+  apply dedup_le_one_of_subset _ hM
+  intro key hkey
+  have hflat : FlatKey D o.sel key := rootKeys_flatKey (accepted_nodup h) (by
+    unfold Valid.rootKeys
+    exact mem_foldl_dedup_of _ [] (Or.inr hkey))
+  unfold checkSelectionSet at hwalk
+  cases hdf : directFields root with
+  | none => simp [hdf] at hwalk
+  | some fields =>
+    simp only [hdf] at hwalk
+    exact flatKey_collected admissible_none (accepted_condsDefined h) hflat _ _ _ _ hdf (quiet_none_iff.mpr hwalk)
+
 /-! ### directives on operations and variable definitions (part of 5.7.1 – 5.7.3) -/
 
 /-- 5.7.1 – 5.7.3 on the definition-level directive sites of operations: if the checker reports nothing, the
@@ -369,7 +448,7 @@ theorem C03_directives_on_operations (S : Schema) (D : Doc) (h : checkOp S D = [
 
 /-- the rules whose soundness theorem is proved in this file -/
 def ProvedRules : List String :=
-  ["5.2.1.1", "5.2.2.1", "5.5.1.1", "5.8.1", "5.8.2", "5.3.1", "5.3.3", "5.5.1.2", "5.5.1.3", "5.5.2.1", "5.5.2.2", "5.7.1", "5.7.2", "5.7.3", "5.4.2.1", "5.5.2.3", "5.4.1", "5.4.2"]
+  ["5.2.1.1", "5.2.2.1", "5.5.1.1", "5.8.1", "5.8.2", "5.3.1", "5.3.3", "5.5.1.2", "5.5.1.3", "5.5.2.1", "5.5.2.2", "5.7.1", "5.7.2", "5.7.3", "5.4.2.1", "5.5.2.3", "5.4.1", "5.4.2", "5.6.1", "5.6.2", "5.6.3", "5.6.4", "5.8.3", "5.8.5"]
 
 /-- every proved rule is one of the implemented rules of the C03 statement -/
 example : ∀ r ∈ ProvedRules, r ∈ ImplementedRules := by decide
@@ -381,7 +460,7 @@ theorem C03_accepts_only_valid_proved (S : Schema) (D : Doc) (hS : SchemaValid S
   simp only [ProvedRules, List.mem_cons, List.not_mem_nil, or_false] at hr
   simp only [ruleTable, extraRuleTable, List.cons_append, List.nil_append, List.mem_cons, Prod.mk.injEq,
     List.not_mem_nil, or_false] at hf
-  rcases hr with rfl | rfl | rfl | rfl | rfl | rfl | rfl | rfl | rfl | rfl | rfl | rfl | rfl | rfl | rfl | rfl | rfl | rfl <;> simp at hf <;> subst hf
+  rcases hr with rfl | rfl | rfl | rfl | rfl | rfl | rfl | rfl | rfl | rfl | rfl | rfl | rfl | rfl | rfl | rfl | rfl | rfl | rfl | rfl | rfl | rfl | rfl | rfl <;> simp at hf <;> subst hf
   · exact C03_rule_5_2_1_1 S D h
   · exact C03_rule_5_2_2_1 S D h
   · exact C03_rule_5_5_1_1 S D h
@@ -400,26 +479,26 @@ theorem C03_accepts_only_valid_proved (S : Schema) (D : Doc) (hS : SchemaValid S
   · exact C03_rule_5_5_2_3 S D hS h
   · exact C03_rule_5_4_1 S D hS h
   · exact C03_rule_5_4_2 S D hS h
+  · exact C03_rule_5_6_1 S D hS h
+  · exact C03_rule_5_6_2 S D hS h
+  · exact C03_rule_5_6_3 S D hS h
+  · exact C03_rule_5_6_4 S D hS h
+  · exact C03_rule_5_8_3 S D hS h
+  · exact C03_rule_5_8_5 S D hS h
 
 /-
-OPEN — carried by K/O only (stated, not proved; K ties the model to the code, O searches the real code for a
-violation of each of them with labelled mutations at every position class):
+OPEN — carried by K/O only (stated, not proved):
 
 theorem C03_rule_5_2_3_1 : checkOp S D = [] → rule_5_2_3_1 S D = true     -- single subscription root field
-theorem C03_rule_5_6_1   : SchemaValid S → checkOp S D = [] → rule_5_6_1 S D = true   -- values of correct type
-theorem C03_rule_5_6_2   : checkOp S D = [] → rule_5_6_2 S D = true       -- input object field names
-theorem C03_rule_5_6_3   : SchemaValid S → checkOp S D = [] → rule_5_6_3 S D = true   -- input object field uniqueness
-theorem C03_rule_5_6_4   : checkOp S D = [] → rule_5_6_4 S D = true       -- input object required fields
-theorem C03_rule_5_8_3   : checkOp S D = [] → rule_5_8_3 S D = true       -- variable uses defined
-theorem C03_rule_5_8_5   : checkOp S D = [] → rule_5_8_5 S D = true       -- variable usages allowed
 theorem C03_accepts_only_valid : SchemaValid S → checkOp S D = [] → ∀ r ∈ ImplementedRules, Holds r S D
 
-Proof plan for the selection-set rules (not finished in the budget): (A) local soundness of the structural
-walk — `∀ d ∈ checkSelectionSet S H seen vars root ss a, d.1 = UnknownVariable` implies the rule on `ss` and on
-every nested selection set, and the same for `H seen vars parent F` at every spread `...F` inside; (B) induction
-along a spread path from an operation, the fuel strictly decreasing and the exhausted-fuel branch being
-non-empty, gives (A)'s hypothesis for the selection set of every fragment an operation reaches; fragments no
-operation reaches are walked directly by `checkFragmentDefinition` (fix f60edb6).
+What is missing is only the "at least one root field" half of 5.2.3.1 (`C03_rule_5_2_3_1_at_most_one` above is the
+half a checker has to test): `rule_5_2_3_1` demands exactly one collected response key, and a `Doc` value may
+contain an empty selection set (`subscription S { }`), which the grammar (`SelectionSet = "{" Selection+ "}"`)
+excludes but the abstract syntax does not. On parsed documents "at least one" follows from non-emptiness plus the
+proved rules 5.5.2.1 (spreads defined) and 5.5.2.2 (no cycles) by following first selections; that termination
+argument (a pigeonhole over fragment names) is not formalised. The conjunction over ALL 25 implemented rules is
+open for that reason alone; `C03_accepts_only_valid_proved` is the conjunction over the other 24.
 -/
 
 end NitroVerif.CheckOp
